@@ -15,6 +15,9 @@ func init() {
 				cs = append(cs, driver.Case{Harness: "verifH_c16_ber_id", Pkg: "pkcs7", Config: "purego", Params: P("n", n), MaxUnwind: 64, TimeoutS: 2400, MustReach: []string{"der"}})
 			}
 			cs = append(cs, driver.Case{Harness: "verifH_c16_length", Pkg: "pkcs7", Config: "purego", Params: P(), MaxUnwind: 64})
+			for _, size := range []int{16, 32} {
+				cs = append(cs, driver.Case{Harness: "verifH_c16_datakey", Pkg: "pkcs7", Config: "purego", Params: P("size", size), MaxUnwind: 200, TimeoutS: 300, MustReach: []string{"ok", "failed"}})
+			}
 			return cs
 		},
 		Functions:   []string{"pkcs7.ber2der/readObject/isIndefiniteTermination", "pkcs7.asn1Structured/asn1Primitive.EncodeTo, encodeLength, marshalLongLength, lengthLength", "bytes.Buffer (real code)"},
